@@ -678,4 +678,104 @@ theorem minted_nodes_new : Statement_minted_nodes_new := by
       exact ⟨this.1, Nat.le_trans hstep.2 this.2⟩
   exact key ops _ hw h
 
+/-! ### DELETE WHERE of the pinned code (simplified lazy model): why the snapshot matters -/
+
+/-- witness: {a p b, a p c, _:b p a} and DELETE WHERE { ?x p ?y . ?z p ?x } -/
+def lazyStore : St :=
+  ⟨[(.iri 1, .iri 4, .iri 2, none), (.iri 1, .iri 4, .iri 3, none), (.bnode 30, .iri 4, .iri 1, none)], [], 0⟩
+def lazyPattern : List TPat := [(.var 40, .const (.iri 4), .var 41), (.var 42, .const (.iri 4), .var 40)]
+
+theorem delete_where_lazy_witness :
+    ¬ SetEq (evalDeleteWhereLazy lazyPattern lazyStore).quads
+            (evalDeleteWhere plainGraph [(.dflt, lazyPattern)] lazyStore).quads := by
+  intro h
+  have := (h (.iri 1, .iri 4, .iri 3, none)).1 (by decide)
+  revert this
+  decide
+
+example : (evalDeleteWhere plainGraph [(.dflt, lazyPattern)] lazyStore).quads = [] := by decide
+example : (evalDeleteWhereLazy lazyPattern lazyStore).quads = [(.iri 1, .iri 4, .iri 3, none)] := by decide
+
+/-! ### WITH / USING -/
+
+/-- USING and USING NAMED only choose the dataset the WHERE clause is matched against; what is deleted and
+    inserted, and where (outside GRAPH: the WITH graph, else the real default graph — see
+    `union_switch_writes`), depends on them through the solutions alone. -/
+def Statement_with_using_graph_targets : Prop :=
+  ∀ (c : Cfg) (u u' : Modify) (s : St), u.withG = u'.withG → u.del = u'.del → u.ins = u'.ins →
+    u.solutions c s = u'.solutions c s → evalModify c u s = evalModify c u' s
+
+theorem with_using_graph_targets : Statement_with_using_graph_targets := by
+  intro c u u' s hw hd hi hs
+  unfold evalModify
+  rw [hw, hd, hi, hs]
+
+/-- the dataset USING / USING NAMED define: default graph = the merge of the USING graphs (each triple
+    once; empty without USING), GRAPH <g> sees g only if it is a USING NAMED graph, and with any USING
+    clause present the WITH graph and the union switch play no part in the WHERE clause -/
+def Statement_using_dataset_spec : Prop :=
+  (∀ (s : St) (us nm : List Nat) (t : Triple),
+      t ∈ (usingDataset s us nm).dflt ↔ ∃ g ∈ us, (t.1, t.2.1, t.2.2, some g) ∈ s.quads) ∧
+  (∀ (s : St) (us nm : List Nat), (usingDataset s us nm).dflt.Nodup) ∧
+  (∀ (s : St) (us nm : List Nat) (g : Nat) (t : Triple),
+      t ∈ (usingDataset s us nm).graph g ↔ g ∈ nm ∧ (t.1, t.2.1, t.2.2, some g) ∈ s.quads) ∧
+  (∀ (c c' : Cfg) (u : Modify) (w : Option Nat) (s : St), (u.using_ ≠ [] ∨ u.named ≠ []) →
+      u.solutions c s = { u with withG := w }.solutions c' s)
+
+theorem using_dataset_spec : Statement_using_dataset_spec := by
+  refine ⟨?_, ?_, ?_, ?_⟩
+  · intro s us nm t
+    simp only [usingDataset]
+    rw [mem_dedup]
+    simp only [List.mem_flatMap, mem_graphTriples]
+  · intro s us nm
+    exact nodup_dedup _
+  · intro s us nm g t
+    simp only [usingDataset, WhereDS.graph]
+    split
+    · next e he =>
+      have hm := List.mem_of_find?_eq_some he
+      have hp := List.find?_some he
+      simp only [List.mem_map, mem_dedup] at hm
+      obtain ⟨g', hg', rfl⟩ := hm
+      simp only [decide_eq_true_eq] at hp
+      subst hp
+      simp only [mem_graphTriples, hg', true_and]
+    · next hnone =>
+      simp only [List.find?_eq_none, List.mem_map, mem_dedup, decide_eq_true_eq, forall_exists_index, and_imp,
+        forall_apply_eq_imp_iff₂] at hnone
+      constructor
+      · intro h; cases h
+      · rintro ⟨hg, _⟩; exact absurd rfl (hnone g hg)
+  · intro c c' u w s h
+    unfold Modify.solutions
+    have : (u.using_.isEmpty && u.named.isEmpty) = false := by
+      rcases h with h | h
+      · cases hu : u.using_ with
+        | nil => exact absurd hu h
+        | cons a l => simp
+      · cases hn : u.named with
+        | nil => exact absurd hn h
+        | cons a l => simp
+    simp only [this, Bool.false_eq_true, if_false]
+
+/-! ### DROP removes the graph, CLEAR keeps it registered -/
+
+/-- on a dataset, DROP unregisters exactly its target graphs; CLEAR unregisters nothing -/
+def Statement_drop_unregisters : Prop :=
+  ∀ (c : Cfg) (t : Target) (s : St) (n : Nat), c.single = false →
+    (n ∈ (evalDrop c t s).known ↔ n ∈ s.known ∧ some n ∉ clearTargets c s t) ∧
+    (evalClear c t s).known = s.known
+
+theorem drop_unregisters : Statement_drop_unregisters := by
+  intro c t s n hc
+  constructor
+  · simp only [evalDrop, hc, Bool.false_eq_true, if_false]
+    exact known_foldl_dropGraph _ _ _
+  · simp only [evalClear]
+    generalize clearTargets c s t = gs
+    induction gs generalizing s with
+    | nil => rfl
+    | cons g rest ih => rw [List.foldl_cons, ih]; rfl
+
 end RV.C10
